@@ -219,6 +219,11 @@ def pair_check(ax, case, rec):
             rec.close("plane-strain-stress", relmax(PS.gradient([F2.copy(), None])[0], P3[:2, :2], sc * case["amp"]), 1e-11)
             A2 = np.asarray(PS.hessian([F2.copy(), None])[0], float)
             rec.close("plane-strain-elasticity", relmax(A2.reshape(2, 2, 2, 2, -1)[..., 0], Aa6[:2, :2, :2, :2, 0, 0], sc), 1e-12)
+            # the 3-d stress and strain tensors recovered from the in-plane deformation gradient are those of the 3-d law
+            H3 = Fc - I
+            e3 = 0.5 * (H3 + np.swapaxes(H3, 0, 1))
+            rec.close("plane-strain-3d-strain", relmax(np.asarray(PS.strain([F2.copy(), None])[0], float), e3, case["amp"]), 1e-12)
+            rec.close("plane-strain-3d-stress", relmax(np.asarray(PS.stress([F2.copy(), None])[0], float), P3, sc * case["amp"]), 1e-11)
         elif n == "plane-stress":
             PT = fem.LinearElasticPlaneStress(E=E, nu=nu)
             F2 = np.ascontiguousarray(F[:2, :2])
@@ -232,6 +237,10 @@ def pair_check(ax, case, rec):
             Cps = C[:2, :2, :2, :2] - np.einsum("ij,kl->ijkl", C[:2, :2, 2, 2], C[2, 2, :2, :2]) / C[2, 2, 2, 2]
             A2 = np.asarray(PT.hessian([F2.copy(), None])[0], float)
             rec.close("plane-stress-elasticity", relmax(A2.reshape(2, 2, 2, 2, -1)[..., 0], Cps, sc), 1e-12)
+            H3 = Fs - I
+            e3 = 0.5 * (H3 + np.swapaxes(H3, 0, 1))
+            rec.close("plane-stress-3d-strain", relmax(np.asarray(PT.strain([F2.copy(), None])[0], float), e3, case["amp"]), 1e-12)
+            rec.close("plane-stress-3d-stress", relmax(np.asarray(PT.stress([F2.copy(), None])[0], float), P3, sc * case["amp"]), 1e-11)
         elif n == "orthotropic":
             import felupe.constitution.tensortrax as tt
 
